@@ -165,8 +165,12 @@ class HandleFidelity(Family):
         models = drive(expr_requests([(c["name"], False, c["x"], c["p"], c["m"]) for c in cases]))
         out = []
         for c, impl, mo in zip(cases, impls, models):
-            val, mag = unbits(mo[0][0]), unbits(mo[0][1])
             tags = [c["name"]]
+            if mo is None:
+                out.append(Verdict("corr", f"handles.{c['name']} is not among the generated expressions", impl, None,
+                                   None, tags, False))
+                continue
+            val, mag = unbits(mo[0][0]), unbits(mo[0][1])
             if "ok" not in impl:
                 out.append(Verdict("corr", f"Python handle {c['name']} raised", impl, val, None, tags, False))
                 continue
@@ -211,22 +215,47 @@ class DerivativeGrid(Family):
             warnings.simplefilter("ignore")
             return fg_setup.setup(Objectives[obj], None, p)
 
+    @staticmethod
+    def _base_name(h):
+        return (h.func if isinstance(h, functools.partial) else h).__name__
+
     def evaluate(self, cases):
-        reqs = []
+        # the pair under test is whatever fg_setup.setup returns for the objective
+        setups = {}
         for c in cases:
-            reqs += expr_requests([(loss_name(c["obj"]), True, c["x"], c["p"], c["m"]),
-                                   (grad_name(c["obj"]), False, c["x"], c["p"], c["m"])])
+            key = (c["obj"], c["p"])
+            if key not in setups:
+                setups[key] = call(self._setup, c["obj"], c["p"])
+        reqs, names = [], []
+        for c in cases:
+            st = setups[(c["obj"], c["p"])]
+            if "ok" in st:
+                ln, gn = self._base_name(st["ok"][0]), self._base_name(st["ok"][1])
+            else:
+                ln, gn = loss_name(c["obj"]), grad_name(c["obj"])
+            names.append((ln, gn))
+            reqs += expr_requests([(ln, True, c["x"], c["p"], c["m"]), (gn, False, c["x"], c["p"], c["m"])])
         models = drive(reqs)
         out = []
         for i, c in enumerate(cases):
             obj, x, p, m = c["obj"], c["x"], c["p"], c["m"]
             lower = SPEC[obj][0]
             tags = [obj]
+            st = setups[(obj, p)]
+            ln, gn = names[i]
+            if "ok" not in st:
+                out.append(Verdict("violation", f"{obj}: fg_setup.setup raised {st.get('exc')}: {st.get('msg')}",
+                                   strip_exc(st), None, None, tags))
+                continue
+            if models[2 * i] is None or models[2 * i + 1] is None:
+                out.append(Verdict("corr", f"{obj}: handles {ln} / {gn} are not among the generated expressions",
+                                   None, None, None, tags, False))
+                continue
             d, magd = unbits(models[2 * i][0][0]), unbits(models[2 * i][0][1])
             magg = unbits(models[2 * i + 1][0][1])
+            fn, gr, lb = st["ok"]
 
             def run():
-                fn, gr, lb = self._setup(obj, p)
                 xs = np.array([float(x)])
                 with np.errstate(all="ignore"):
                     g = float(np.asarray(gr(xs, np.array([float(m)])), dtype=float).reshape(-1)[0])
@@ -249,7 +278,7 @@ class DerivativeGrid(Family):
 
             impl = call(run)
             if "ok" not in impl:
-                out.append(Verdict("violation", f"{obj}: setup or handle raised {impl.get('exc')}: {impl.get('msg')}",
+                out.append(Verdict("violation", f"{obj}: handle raised {impl.get('exc')}: {impl.get('msg')}",
                                    impl, repr(d), None, tags))
                 continue
             r = impl["ok"]
@@ -265,16 +294,77 @@ class DerivativeGrid(Family):
             tags.append(kind)
             if not same_double(g, d, tol):
                 out.append(Verdict("violation",
-                                   f"{obj}: gradient handle {grad_name(obj)} returns {g!r} but d/dm of {loss_name(obj)} is "
+                                   f"{obj}: gradient handle {gn} returns {g!r} but d/dm of {ln} is "
                                    f"{d!r} at data={x} param={p} model={m}"
                                    + (f" (finite difference of the Python loss: {r['fd']!r})" if r["fd"] is not None else ""),
                                    repr(g), repr(d), repr(r["fd"]), tags))
             elif r["fd"] is not None and not same_double(g, r["fd"], r["fd_tol"]):
                 out.append(Verdict("violation",
-                                   f"{obj}: gradient handle returns {g!r} but the finite difference of the Python loss is "
-                                   f"{r['fd']!r} at data={x} param={p} model={m}", repr(g), repr(d), repr(r["fd"]), tags))
+                                   f"{obj}: gradient handle {gn} returns {g!r} but the finite difference of the Python loss "
+                                   f"{ln} is {r['fd']!r} at data={x} param={p} model={m}", repr(g), repr(d), repr(r["fd"]), tags))
             else:
                 out.append(Verdict("ok", "", repr(g), repr(d), repr(r["fd"]), tags, True))
+        return out
+
+
+class SymbolicDerivative(Family):
+    """second, translator-independent opinion: sympy (python3-vt) differentiates the Python loss
+    handle itself (handles.py executed on symbols); compared with the Python gradient handle.
+    Skipped (trivial cases) when no interpreter with sympy is available; Huber is left to the
+    derivative grid (comparisons of symbols are outside what the shim runs)."""
+    name = "symbolic_derivative"
+    theorems = tuple(f"C12_deriv_{o.lower()}" for o in OBJS if o != "HUBER")
+
+    def gen(self, rng, tier):
+        out = []
+        for obj in OBJS:
+            if obj == "HUBER":
+                continue
+            lower, params, _ = SPEC[obj]
+            for p in params:
+                pts = list(itertools.product(x_points(rng, obj, 1), m_points(rng, lower, 2 if tier == "quick" else 8)))
+                for x, m in rng.sample(pts, min(len(pts), 4 if tier == "quick" else 40)):
+                    out.append({"obj": obj, "x": x, "p": p, "m": m})
+        return out
+
+    def evaluate(self, cases):
+        import json as _json
+        import shutil
+        import subprocess
+        from harness.lib import REPO, ROOT
+        sym = [None] * len(cases)
+        exe = shutil.which("python3-vt")
+        if exe and cases:
+            try:
+                src = (REPO / "pyttb" / "gcp" / "handles.py").read_text()
+                req = {"source": src, "points": [[loss_name(c["obj"]), c["x"], c["p"], c["m"]] for c in cases]}
+                pr = subprocess.run([exe, str(ROOT / "harness" / "aux" / "sympy_deriv.py")], input=_json.dumps(req),
+                                    capture_output=True, text=True, timeout=600)
+                if pr.returncode == 0:
+                    sym = _json.loads(pr.stdout)
+            except Exception:  # noqa: BLE001
+                sym = [None] * len(cases)
+        models = drive(expr_requests([(grad_name(c["obj"]), False, c["x"], c["p"], c["m"]) for c in cases]))
+        out = []
+        for c, sv, mo in zip(cases, sym, models):
+            tags = [c["obj"]]
+            if sv is None or mo is None:
+                out.append(Verdict("ok", "", None, None, None, tags + ["sympy-unavailable"], False))
+                continue
+            d = float(sv)
+            impl = call(py_handle, grad_name(c["obj"]), c["x"], 0.0 if c["p"] is None else c["p"], c["m"])
+            if "ok" not in impl:
+                out.append(Verdict("violation", f"gradient handle of {c['obj']} raised", impl, None, sv, tags))
+                continue
+            g = impl["ok"]
+            mag = unbits(mo[0][1])
+            tol = 1e-9 * ((mag if math.isfinite(mag) else abs(g)) + abs(d)) + 1e-300
+            if same_double(g, d, tol):
+                out.append(Verdict("ok", "", repr(g), None, sv, tags, True))
+            else:
+                out.append(Verdict("violation", f"{c['obj']}: gradient handle returns {g!r} but sympy's d/dm of the Python "
+                                                f"loss is {d!r} at data={c['x']} param={c['p']} model={c['m']}",
+                                   repr(g), None, sv, tags))
         return out
 
 
@@ -331,10 +421,15 @@ class TablePairing(Family):
             row = table.get(obj, {})
             model = {k: row.get(k) for k in ("fn", "grad", "lower", "hasParam")}
             tags = [obj]
-            if "ok" not in impl or not deep_eq(impl["ok"], spec):
+
+            def same_row(a, b):
+                return (a.get("fn") == b.get("fn") and a.get("grad") == b.get("grad")
+                        and a.get("hasParam") == b.get("hasParam") and a.get("lower") is not None
+                        and b.get("lower") is not None and deep_eq(a.get("lower"), b.get("lower")))
+            if "ok" not in impl or not same_row(impl["ok"], spec):
                 out.append(Verdict("violation", f"fg_setup.setup({obj}) does not return the objective's own "
                                                 f"loss / gradient / bound", impl, model, spec, tags))
-            elif not deep_eq(impl["ok"], model):
+            elif not same_row(impl["ok"], model):
                 out.append(Verdict("corr", f"generated table row for {obj} differs from fg_setup.setup", impl, model, spec, tags))
             else:
                 out.append(Verdict("ok", "", impl, model, spec, tags, True))
@@ -415,7 +510,7 @@ def nontriv(K, data):
 
 class EvaluateCorr(Family):
     name = "evaluate"
-    theorems = ("C12_objective_sum", "C12_gradient_is_partial", "C12_all_modes_eq_each")
+    theorems = ("C12_objective_sum", "C12_gradient_is_partial_derivative", "C12_all_modes_eq_each")
 
     def gen(self, rng, tier):
         out = []
@@ -498,7 +593,7 @@ class EvaluateCorr(Family):
                                     impl, mo, jnum(tot), tags, nt)
                 # gradient entry = exact partial derivative of the implementation's own objective:
                 # the objective is a polynomial of degree <= 3 in one factor entry, so the 5-point
-                # stencil with step 1 is exact.  (unit model weights: see C12_gradient_is_partial)
+                # stencil with step 1 is exact.  (unit model weights: see C12_gradient_is_partial_derivative)
                 if v.status == "ok" and c.get("probe") and unit:
                     k, a, r = c["probe"]
                     vals = []
@@ -770,4 +865,4 @@ class FullSample(Family):
 
 
 def families():
-    return [HandleFidelity(), DerivativeGrid(), TablePairing(), EvaluateCorr(), AllModes(), EstimateCorr(), FullSample()]
+    return [HandleFidelity(), DerivativeGrid(), SymbolicDerivative(), TablePairing(), EvaluateCorr(), AllModes(), EstimateCorr(), FullSample()]
